@@ -39,6 +39,7 @@ func main() {
 	goarch := flag.String("goarch", "", "GOARCH for a single-configuration run")
 	emit := flag.String("emit", "", "write the raw report (JSON) to this file instead of finishing (used by the thorough driver)")
 	list := flag.Bool("list", false, "list registered properties")
+	emitRef := flag.Bool("emit-ref", false, "write reference/funcs.txt from -repo (developer: only on the reference tree)")
 	flag.Parse()
 	if *list {
 		var ids []string
@@ -59,6 +60,48 @@ func main() {
 		}
 	}
 	verifDirGlobal = *verif
+	refPath := filepath.Join(*verif, "reference", "funcs.txt")
+	if _, err := os.Stat(refPath); err != nil {
+		if exe, err := os.Executable(); err == nil {
+			refPath = filepath.Join(filepath.Dir(exe), "..", "reference", "funcs.txt")
+		}
+	}
+	if *emitRef {
+		keys, err := refKeys(*repo)
+		if err != nil || len(keys) < 1000 {
+			fmt.Fprintf(os.Stderr, "emit-ref: %v (%d keys)\n", err, len(keys))
+			os.Exit(2)
+		}
+		if err := writeRefList(filepath.Join(*verif, "reference", "funcs.txt"), keys); err != nil {
+			fmt.Fprintln(os.Stderr, err)
+			os.Exit(2)
+		}
+		fmt.Printf("%d keys\n", len(keys))
+		return
+	}
+	if rl, err := readRefList(refPath); err == nil && len(rl) > 0 {
+		RefList = rl
+	}
+	if *prop == "all" || strings.Contains(*prop, ",") { // developer mode: several properties over one load (quick tier)
+		known, _ := loadKnown(filepath.Join(*verif, "known_findings.json"))
+		var ids []string
+		if *prop == "all" {
+			for id := range props {
+				ids = append(ids, id)
+			}
+		} else {
+			ids = strings.Split(*prop, ",")
+		}
+		sort.Strings(ids)
+		rc := 0
+		for _, id := range ids {
+			t0 := time.Now()
+			if c := runOne(props[id], *repo, "quick", seed, "", "").Finish(*verif, time.Since(t0), known); c != 0 {
+				rc = c
+			}
+		}
+		os.Exit(rc)
+	}
 	pd := props[*prop]
 	if pd == nil {
 		fmt.Fprintf(os.Stderr, "unknown property %q\n", *prop)
@@ -144,6 +187,7 @@ func isFlagSet(name string) bool {
 }
 
 var verifDirGlobal = "/verif"
+var worldCache = map[string]*World{}
 
 func runOne(pd *propDef, repo, tier string, seed int64, goos, goarch string) (r *Report) {
 	r = NewReport(pd.ID, tier, seed)
@@ -160,10 +204,20 @@ func runOne(pd *propDef, repo, tier string, seed int64, goos, goarch string) (r 
 			r.Unk("LOAD", "panic", "-", fmt.Sprintf("checker panic: %v\n%s", x, debug.Stack()))
 		}
 	}()
-	w, err := Load(repo, goos, goarch)
+	wk := repo + "|" + goos + "|" + goarch
+	w, err := worldCache[wk], error(nil)
+	if w == nil {
+		w, err = Load(repo, goos, goarch)
+		if err == nil {
+			worldCache[wk] = w
+		}
+	}
 	if err != nil {
 		r.Unk("LOAD", "packages", "-", "load failed: "+err.Error())
 		return r
+	}
+	for _, l := range w.InlineLog {
+		r.Assumes = append(r.Assumes, "normalisation (inline.go): "+l)
 	}
 	missing := []string{}
 	for _, a := range pd.Anchors {
